@@ -31,6 +31,7 @@ inductive Ev
   | dialRet              -- Client.Dial returned a connection
   | closedS | closedC    -- that side's connection was closed
   | handshakeV2          -- a handshake at version >= 2 completed: both sides store the other's key
+  | handshakeClientOnly  -- … completed on the client only (its last message never reached the server)
   | transfer             -- application data over the open connections
 deriving Repr, DecidableEq
 
@@ -43,6 +44,8 @@ def step (st : St) : Ev → Option St
     if st.srv.opened ∧ st.cli.opened then
       some { st with srv := { st.srv with remote := some st.cli.key }, cli := { st.cli with remote := some st.srv.key } }
     else none
+  | .handshakeClientOnly =>
+    if st.srv.opened ∧ st.cli.opened then some { st with cli := { st.cli with remote := some st.srv.key } } else none
   | .transfer => if st.srv.opened ∧ st.cli.opened then some st else none
 
 def run (st : St) : List Ev → Option St
